@@ -47,6 +47,10 @@ def run(R, ctx):
     only = r'^util::write_buffered::\{closure#0\}$|StdWriter as writers::log_writer::LogWriter>::write$|^writers::file_log_writer::state_handle::'
     c01.emission(R, ctx, 'R03.2', roots=roots, le_pattern=r"line_ending|b'\\n'", only=only)
     c01.sink_table(R, ctx, 'R03.2')
+    # through any number of rotations: the buffered tail of the file being closed is flushed (old writer dropped by the swap) BEFORE anything may
+    # compress / remove that file, and the writer is replaced only by a successfully opened file (shared with R01.4)
+    R.rule('R03.7', 'rotation: writer swapped (old BufWriter flushed) before the cleanup may touch the closed file (shared with R01.4)')
+    c01.swap_rules(Relabel(R, {'R01.4': 'R03.7'}), ctx)
 
     # recursion arm uses a fresh buffer: in every body that tests try_borrow_mut, the Err arm's format buffer comes from Vec::with_capacity/new
     for b in f.fn_bodies():
